@@ -46,7 +46,7 @@ def tasks(tier, seed, which="C05"):
                            "R": list(configs.R2), "rng_k": 2 if d2 else None, "cost": 3})
                 ts.append({"kind": "algo", "label": "full3/" + lab, "cfg": cfg, "mode": "full", "T": 6 if tier == "quick" else 8,
                            "R": list(configs.R3), "rng_k": 1 if d2 else None, "cost": 3})
-                for base in (("peak", "alt") if tier == "quick" else ("peak", "alt", "zero", "twopeak", "negpeak")):
+                for base in (("peak", "alt", "off8") if tier == "quick" else ("peak", "alt", "off8", "zero", "twopeak", "negpeak")):
                     ts.append({"kind": "algo", "label": "dev/%s/%s" % (lab, base), "cfg": cfg, "mode": "dev", "T": 70,
                                "R": list(configs.R3), "base": base, "k": 1 if tier == "quick" else 2,
                                "max_exec": 2000 if tier == "quick" else 30000, "cost": 10})
